@@ -375,3 +375,215 @@ Section Run.
           right. do 3 eexists. reflexivity.
   Qed.
 End Run.
+
+
+(* ---- the returned tree ------------------------------------------------------------- *)
+Section Valid.
+  Variable g : grammar.
+  Variable tb : table.
+  Variable skipws : N -> option N.
+  Variable next_token : nat -> N -> tokres.
+  Variable stop_id : N.
+  Variable consume_input : bool.
+  Variable strategy : lrstate -> strat_res.
+
+  Notation step := (lr_step g tb skipws next_token stop_id consume_input false).
+  Notation run rc := (rcv_run g tb skipws next_token stop_id consume_input rc strategy).
+  Notation errst := (err_state skipws next_token).
+
+  Lemma lookahead_same s top0 top lay1 scan :
+    lookahead skipws next_token false s top0 = Some (top, lay1, scan) ->
+    e_state top = e_state top0 /\ e_tree top = e_tree top0.
+  Proof.
+    unfold lookahead. destruct (l_ahead s).
+    - intros H; inversion H; subst; auto.
+    - destruct (skipws (e_pos top0)); [|discriminate]. intros H; inversion H; subst; auto.
+  Qed.
+
+  (* recovery does not touch the stack (states and trees) nor the shifted tokens *)
+  Lemma resume_stack s se p ahead :
+    errst s = Some se ->
+    to_stack (l_stack (resume se p ahead)) = to_stack (l_stack s) /\
+    l_trace (resume se p ahead) = l_trace s /\
+    map e_tree (l_stack (resume se p ahead)) = map e_tree (l_stack s).
+  Proof.
+    unfold err_state. destruct (l_stack s) as [|top0 below] eqn:Hstk; [discriminate|].
+    destruct (lookahead skipws next_token false s top0) as [[[top lay1] scan]|] eqn:Hla; [|discriminate].
+    intros E; inversion E; subst. destruct (lookahead_same _ _ _ _ _ Hla) as [H1 H2].
+    unfold resume. cbn [l_stack l_trace to_stack map set_pos e_state e_tree]. rewrite H1, H2. auto.
+  Qed.
+
+  Lemma nsteps_left look c c1 c' :
+    nstep g tb look c c1 -> nsteps g tb look c1 c' -> nsteps g tb look c c'.
+  Proof.
+    intros Hstep Hsteps. induction Hsteps as [c1|c1 c2 c3 H12 IH2 H23].
+    - eapply nss_step; [apply nss_refl|exact Hstep].
+    - eapply nss_step; [apply IH2; exact Hstep|exact H23].
+  Qed.
+
+  Lemma run_sim_rcv rc fuel : forall s errs c t rp lay tr errs',
+    sim s c -> run rc fuel s errs = RvOk t rp lay tr errs' ->
+    exists c', nsteps g tb anylook c c' /\ naccepts tb anylook c' t /\ c_trace c' = strip tr.
+  Proof.
+    induction fuel as [|f IH]; intros s errs c t rp lay tr errs' Hc Hrun; cbn [rcv_run] in Hrun;
+      [discriminate|].
+    unfold rstep in Hrun.
+    pose proof (step_sim g tb skipws next_token stop_id consume_input false s c Hc) as Hsim.
+    destruct (step s) as [s'|r].
+    - destruct Hsim as (c1 & Hstep & Hc1).
+      destruct (IH _ _ _ _ _ _ _ _ Hc1 Hrun) as (c' & Hsteps & Hacc).
+      exists c'. split; [|exact Hacc]. eapply nsteps_left; eauto.
+    - destruct r as [t' rp' lay' tr'|pos st|pos st| |pos|cd]; try discriminate.
+      + inversion Hrun; subst. cbn in Hsim. exists c. split; [apply nss_refl|exact Hsim].
+      + destruct rc; [|discriminate].
+        destruct (errst s) as [se|] eqn:Hse; [|discriminate].
+        destruct (strategy se) as [|p ahead|p]; try discriminate.
+        destruct (resume_stack s se p ahead Hse) as (R1 & R2 & _).
+        apply (IH _ _ c _ _ _ _ _ (conj (eq_trans (proj1 Hc) (eq_sym R1))
+                                         (eq_trans (proj2 Hc) (f_equal strip (eq_sym R2)))) Hrun).
+  Qed.
+
+  (* C11_result_valid, first half: whatever the strategy does, a returned tree is a derivation
+     of the start symbol whose leaves are exactly the shifted tokens, in order *)
+  Theorem rcv_sound rc start fuel pos t rp lay tr errs :
+    table_struct g tb start = true ->
+    rcv_parse g tb skipws next_token stop_id consume_input rc strategy fuel pos = RvOk t rp lay tr errs ->
+    wf_tree g t /\ root_sym g t = Some (NT start) /\ leaves t = strip tr.
+  Proof.
+    intros Hts Hrun. unfold rcv_parse in Hrun.
+    assert (Hsim : sim (lr_init pos) (init_cfg pos (bottom_tree pos))) by (split; reflexivity).
+    destruct (run_sim_rcv rc fuel _ _ _ _ _ _ _ _ Hsim Hrun) as (c' & Hsteps & Hacc & Htr).
+    destruct (nlr_sound g tb start anylook Hts pos _ c' t Hsteps Hacc) as (H1 & H2 & H3).
+    split; [exact H1|]. split; [exact H2|]. rewrite H3. exact Htr.
+  Qed.
+
+  (* -- spans of the tree, and the shifted tokens are scanner tokens --------------------- *)
+  Variable in_len : N.
+  Hypothesis skip_mono : forall p q, skipws p = Some q -> p <= q.
+  Hypothesis skip_bound : forall p q, skipws p = Some q -> p <= in_len -> q <= in_len.
+  Hypothesis tok_bound : forall st p y len, next_token st p = TTok y len -> p <= in_len -> p + len <= in_len.
+  Hypothesis Hmono : strategy_monotone strategy in_len.
+
+  Lemma resume_lr_inv s se p ahead :
+    pos_inv in_len s -> lr_inv s -> errst s = Some se -> hpos se <= p -> lr_inv (resume se p ahead).
+  Proof.
+    intros [Hp Ha] [[Hall Hsorted] Htop]. unfold err_state, hpos in *.
+    destruct (l_stack s) as [|top0 below] eqn:Hstk; [discriminate|].
+    destruct (lookahead skipws next_token false s top0) as [[[top lay1] scan]|] eqn:Hla; [|discriminate].
+    intros E Hle; inversion E; subst. cbn [l_stack] in Hle.
+    destruct (lookahead_pos skipws next_token in_len skip_mono skip_bound tok_bound _ _ _ _ _ Hp Ha Hla)
+      as (L1 & L2 & L3 & L4 & L5).
+    unfold resume, lr_inv, stack_good. cbn [l_stack]. split; [split|].
+    - cbn [All set_pos e_tree] in *. rewrite L4. exact Hall.
+    - destruct below as [|l r]; [exact I|]. cbn [sorted set_pos e_tree] in *. rewrite L4. exact Hsorted.
+    - cbn [set_pos e_tree e_pos]. rewrite L4. lia.
+  Qed.
+
+  Lemma run_tree_spans rc fuel : forall s errs t rp lay tr errs',
+    pos_inv in_len s -> lr_inv s -> run rc fuel s errs = RvOk t rp lay tr errs' -> spans_ok t.
+  Proof.
+    induction fuel as [|f IH]; intros s errs t rp lay tr errs' Hpi Hinv Hrun; cbn [rcv_run] in Hrun;
+      [discriminate|].
+    unfold rstep in Hrun.
+    pose proof (step_inv g tb skipws next_token stop_id consume_input false skip_mono s Hinv) as Hs.
+    pose proof (step_pos g tb skipws next_token stop_id consume_input in_len skip_mono skip_bound tok_bound
+                         s Hpi) as Hp.
+    destruct (step s) as [s'|r].
+    - destruct Hp as [Hp' _]. eapply IH; [exact Hp'|exact Hs|exact Hrun].
+    - destruct r as [t' rp' lay' tr'|pos st|pos st| |pos|cd]; try discriminate.
+      + inversion Hrun; subst. exact Hs.
+      + destruct rc; [|discriminate].
+        destruct Hp as (se & Hse & Hpos & Hst & Hle & Hise). rewrite Hse in Hrun.
+        destruct (strategy se) as [|p ahead|p] eqn:Hstr; try discriminate.
+        destruct (Hmono se p ahead Hise Hstr) as (M1 & M2 & M3).
+        destruct (resume_pos in_len se p ahead (errst_nonempty skipws next_token _ _ Hse) M2 M3) as [R1 R2].
+        eapply IH; [exact R1| |exact Hrun]. exact (resume_lr_inv s se p ahead Hpi Hinv Hse M1).
+  Qed.
+End Valid.
+
+
+(* ---- statements about whole parses -------------------------------------------------- *)
+Lemma chain_app_l lo hi l l' : chain lo hi (l ++ l') -> chain lo hi l.
+Proof.
+  revert lo. induction l as [|[a b] r IH]; intros lo; cbn [chain app].
+  - apply chain_le.
+  - intros (H1 & H2 & H3). repeat split; auto.
+Qed.
+
+Section Top.
+  Variable g : grammar.
+  Variable tb : table.
+  Variable skipws : N -> option N.
+  Variable next_token : nat -> N -> tokres.
+  Variable stop_id : N.
+  Variable consume_input : bool.
+  Variable strategy : lrstate -> strat_res.
+  Variable in_len : N.
+  Hypothesis skip_mono : forall p q, skipws p = Some q -> p <= q.
+  Hypothesis skip_bound : forall p q, skipws p = Some q -> p <= in_len -> q <= in_len.
+  Hypothesis tok_bound : forall st p y len, next_token st p = TTok y len -> p <= in_len -> p + len <= in_len.
+
+  Notation parse rc := (rcv_parse g tb skipws next_token stop_id consume_input rc strategy).
+
+  Lemma init_pos_inv p0 : p0 <= in_len -> pos_inv in_len (lr_init p0).
+  Proof. intros H. split; [exact H|exact I]. Qed.
+
+  Theorem parse_spans rc fuel p0 :
+    strategy_monotone strategy in_len -> p0 <= in_len ->
+    chain p0 in_len (all_errs (parse rc fuel p0)).
+  Proof.
+    intros Hm Hp. unfold rcv_parse.
+    apply (run_spans g tb skipws next_token stop_id consume_input strategy in_len
+                     skip_mono skip_bound tok_bound Hm rc fuel _ [] p0 (init_pos_inv p0 Hp)).
+    cbn. lia.
+  Qed.
+
+  (* the user-level reading of a chain *)
+  Theorem parse_spans_facts rc fuel p0 :
+    strategy_monotone strategy in_len -> p0 <= in_len ->
+    let errs := all_errs (parse rc fuel p0) in
+    (forall a b, In (a, b) errs -> p0 <= a /\ a <= b /\ b <= in_len) /\
+    (forall i j a b c d, (i < j)%nat -> nth_error errs i = Some (a, b) ->
+                         nth_error errs j = Some (c, d) -> b <= c).
+  Proof.
+    intros Hm Hp errs. pose proof (parse_spans rc fuel p0 Hm Hp) as Hc. split.
+    - intros a b. apply (chain_in _ _ _ _ _ Hc).
+    - apply (chain_ordered _ _ _ Hc).
+  Qed.
+
+  Theorem parse_count rc fuel p0 :
+    strategy_progress strategy in_len -> p0 <= in_len ->
+    (forall p st e, parse rc fuel p0 <> RvDisambiguation p st e) ->
+    N.of_nat (length (all_errs (parse rc fuel p0))) <= in_len - p0 + 1.
+  Proof.
+    intros Hpr Hp Hnd.
+    pose proof (parse_spans rc fuel p0 (progress_monotone _ _ Hpr) Hp) as Hc.
+    assert (Hstrict : forall a b, In (a, b) (errs_of (parse rc fuel p0)) -> a < b).
+    { intros a b Hin. unfold rcv_parse in *.
+      destruct (run_strict g tb skipws next_token stop_id consume_input strategy in_len
+                           skip_mono skip_bound tok_bound Hpr rc fuel _ [] (init_pos_inv p0 Hp)
+                           (fun x y (F : In (x, y) []) => match F with end) a b Hin) as [H|(p & st & e & H)];
+        [exact H|]. exfalso. exact (Hnd _ _ _ H). }
+    destruct (parse rc fuel p0) as [t rp lay tr e|pos st e|pos st e|pos e|c e|e] eqn:E;
+      cbn [all_errs errs_of] in *;
+      try (pose proof (chain_strict_len _ _ _ Hc Hstrict); lia).
+    rewrite app_length. cbn [length].
+    pose proof (chain_strict_len _ _ _ (chain_app_l _ _ _ _ Hc) Hstrict). lia.
+  Qed.
+
+  Theorem parse_tree_spans rc fuel p0 t rp lay tr errs :
+    strategy_monotone strategy in_len -> p0 <= in_len ->
+    parse rc fuel p0 = RvOk t rp lay tr errs -> spans_ok t.
+  Proof.
+    intros Hm Hp H. unfold rcv_parse in H.
+    eapply (run_tree_spans g tb skipws next_token stop_id consume_input strategy in_len
+                           skip_mono skip_bound tok_bound Hm rc fuel _ _ _ _ _ _ _ (init_pos_inv p0 Hp)); [|exact H].
+    unfold lr_init, lr_inv, stack_good. cbn. repeat split; lia.
+  Qed.
+
+  Theorem default_is_progress : strategy_progress (default_strategy next_token in_len) in_len.
+  Proof.
+    intros se p ahead _ H. destruct (default_progress _ _ _ _ _ H) as (A & B & (y & len & -> & C) & _).
+    repeat split; try assumption. cbn. eapply tok_bound; eauto.
+  Qed.
+End Top.
